@@ -18,8 +18,8 @@ EXPLANATION = ('L1/L2: CrossHair executes the real ItpLine and ItpSection on sym
                'writes it, re-reads and writes again; sections in order of first appearance, content tokens, comments and directives in the '
                'same relative positions are compared with the reference reading of the ORIGINAL text; the second write must equal the first.  '
                'The 16 shipped topologies go through the same comparison (translator validation of the reference reader).')
-BOUNDS = {'quick': {'lines': '<= 5 symbolic characters (CrossHair, 60 s each)', 'files': '<= 3 sections over names {a, b}, 2 lines per section from 8 templates (pairs)'},
-          'thorough': {'lines': 'CrossHair 300 s each', 'files': '<= 4 sections, 3 lines per section'}}
+BOUNDS = {'quick': {'lines': '<= 5 symbolic characters (CrossHair, 60 s each)', 'files': '<= 3 sections over names {a, b}, 2 line templates per section out of 9'},
+          'thorough': {'lines': 'CrossHair 300 s each', 'files': '<= 3 sections with 3 line templates per section out of 9; 4 sections with 2'}}
 OUTSIDE = ['lines longer than 5 symbolic characters', 'sections other than generic ones in L3 (atoms / bonds lines are covered by the shipped files only)',
            'blank lines are not preserved by the writer (the statement speaks of content, comment and preprocessor lines)']
 STUBS = ['in-memory file for reading; writing goes to a temporary file (ItpFile.write takes a path)']
@@ -33,9 +33,11 @@ def cases(tier):
     b = 60 if tier == 'quick' else 300
     cs = [{'name': 'crosshair/line_roundtrip', 'fn': 'line_roundtrip', 'budget': b},
           {'name': 'crosshair/section_roundtrip', 'fn': 'section_roundtrip', 'budget': b}]
-    maxsec = 3 if tier == 'quick' else 4
-    for nsec in range(1, maxsec + 1):
+    for nsec in range(1, 4):
         cs.append({'name': 'files/%d-sections' % nsec, 'nsec': nsec, 'nlines': 2 if tier == 'quick' else 3})
+    if tier != 'quick':
+        # 4 headers x 3 templates is 46656 files (> 30 min of path re-execution): 4 headers are explored with 2 templates
+        cs.append({'name': 'files/4-sections', 'nsec': 4, 'nlines': 2})
     cs.append({'name': 'shipped-topologies'})
     return cs
 
